@@ -16,7 +16,7 @@
 EXTENDS Integers, Sequences, FiniteSets, TLC
 
 CONSTANTS UpE1, UpE2, \* upstream identities listening on endpoint "e1" / "e2"
-          Remote,    \* endpoints some remote node advertises (for Select with allowRemote)
+          Remote,    \* endpoints the remote node may advertise (for Select with allowRemote)
           MaxSel     \* bound on the ghost counters (model only)
 
 Up == UpE1 \cup UpE2
@@ -31,15 +31,18 @@ VARIABLES
   pub,     \* pub[e]: count published in the gossip state (domain = live endpoint:e keys)
   added,   \* upstreams ever added
   closed,  \* registered upstreams whose session has ended (their RemoveConn has not run yet)
+  radv,    \* endpoints the remote node advertises now (cluster.State, fed by gossip)
+  rup,     \* the remote node is considered active (FALSE: unreachable)
   last,    \* result of the last Select: an upstream, REMOTE or NONE; "" if the last call was not a Select
   recent,  \* ghost: recent[e] = selections on e since its set of upstreams last changed (capped)
   wait     \* ghost: wait[u] = selections on EpOf[u] since u was last selected or added
 
-vars == <<lb, count, pub, added, closed, last, recent, wait>>
+vars == <<lb, count, pub, added, closed, radv, rup, last, recent, wait>>
 
 Init ==
   /\ lb = <<>> /\ count = <<>> /\ pub = <<>>
   /\ added = {} /\ closed = {}
+  /\ radv = Remote /\ rup = TRUE
   /\ last = ""
   /\ recent = [e \in Ep |-> <<>>]
   /\ wait = [u \in Up |-> 0]
@@ -71,7 +74,7 @@ AddConn(u) ==
   /\ added' = added \cup {u}
   /\ wait' = [wait EXCEPT ![u] = 0]
   /\ last' = ""
-  /\ UNCHANGED closed
+  /\ UNCHANGED <<closed, radv, rup>>
 
 \* loadBalancer.Remove + the repaired RemoveConn: the cluster count changes only
 \* if the upstream was still registered
@@ -87,7 +90,7 @@ RemoveConn(u) ==
              /\ RemoveLocal(e)
              /\ recent' = [recent EXCEPT ![e] = <<>>]
   /\ closed' = closed \ {u}
-  /\ UNCHANGED <<added, wait>>
+  /\ UNCHANGED <<added, wait, radv, rup>>
   /\ last' = ""
 
 \* the session of a registered upstream ends (the client went away, the network dropped):
@@ -96,7 +99,20 @@ CloseSess(u) ==
   /\ u \in Registered(EpOf[u]) /\ u \notin closed
   /\ closed' = closed \cup {u}
   /\ last' = ""
-  /\ UNCHANGED <<lb, count, pub, added, recent, wait>>
+  /\ UNCHANGED <<lb, count, pub, added, recent, wait, radv, rup>>
+
+\* what gossip tells cluster.State about the remote node: it starts or stops advertising an
+\* endpoint, it becomes unreachable or reachable again; the registry of local upstreams is untouched
+RemoteAdv(e) ==
+  /\ e \in Remote \ radv /\ radv' = radv \cup {e} /\ last' = ""
+  /\ UNCHANGED <<lb, count, pub, added, closed, rup, recent, wait>>
+RemoteWithdraw(e) ==
+  /\ e \in radv /\ radv' = radv \ {e} /\ last' = ""
+  /\ UNCHANGED <<lb, count, pub, added, closed, rup, recent, wait>>
+RemoteStatus(b) ==
+  /\ rup # b /\ rup' = b /\ last' = ""
+  /\ UNCHANGED <<lb, count, pub, added, closed, radv, recent, wait>>
+RemoteServes(e) == rup /\ e \in radv
 
 \* Select(e, allowRemote): local upstreams first (round robin), else a remote node if allowed
 Select(e, allowRemote) ==
@@ -109,14 +125,16 @@ Select(e, allowRemote) ==
              /\ wait' = [x \in Up |-> IF x = u THEN 0
                                       ELSE IF x \in Range(lb[e].ups) /\ wait[x] < MaxSel THEN wait[x] + 1
                                       ELSE wait[x]]
-     ELSE /\ last' = IF allowRemote /\ e \in Remote THEN REMOTE ELSE NONE
+     ELSE /\ last' = IF allowRemote /\ RemoteServes(e) THEN REMOTE ELSE NONE
           /\ UNCHANGED <<lb, recent, wait>>
-  /\ UNCHANGED <<count, pub, added, closed>>
+  /\ UNCHANGED <<count, pub, added, closed, radv, rup>>
 
 Next ==
   \/ \E u \in Up : AddConn(u)
   \/ \E u \in Up : RemoveConn(u)
   \/ \E u \in Up : CloseSess(u)
+  \/ \E e \in Remote : RemoteAdv(e) \/ RemoteWithdraw(e)
+  \/ \E b \in BOOLEAN : RemoteStatus(b)
   \/ \E e \in Ep, r \in BOOLEAN : Select(e, r)
 
 Spec == Init /\ [][Next]_vars
@@ -147,7 +165,8 @@ SelectValidStep ==
       /\ (Registered(e) # {} => last' \in Registered(e))
       /\ (Registered(e) = {} => last' \in {NONE, REMOTE})
       /\ (~r => last' # REMOTE)
+      /\ (last' = REMOTE => RemoteServes(e))
 SelectValid == [][SelectValidStep]_vars
 
-View == <<lb, count, pub, added, closed, recent, wait>>
+View == <<lb, count, pub, added, closed, radv, rup, recent, wait>>
 =============================================================================
